@@ -10,6 +10,7 @@ if [ -f tools/py2lean.py ]; then
   /venv/bin/python tools/py2factor.py --repo /repo --out lean/PGM/Generated || true
   /venv/bin/python tools/py2total.py --repo /repo --out lean/PGM/Generated || true
   /venv/bin/python tools/py2gm.py --repo /repo --out lean/PGM/Generated || true
+  /venv/bin/python tools/py2inf.py --repo /repo --out lean/PGM/Generated || true
 fi
 cd lean
 lake build PGM pgmdriver pgmgen
